@@ -352,6 +352,7 @@ struct GuardBuf {
     char *place(size_t n, unsigned char fill = 0xA5)
     {
         size_t body = maplen - 4096;
+        if(n + 16 > body) { fprintf(stderr, "harness: GuardBuf of %zu bytes asked for %zu\n", body, n); _exit(2); }
         p = map + body - n;
         len = n;
         memset(p - 16, CAN, 16);
